@@ -614,6 +614,8 @@ class Init:
         if it.kind in ('cmitems', 'titems') and isinstance(g.target, ast.Tuple) and len(g.target.elts) == 2:
             src = it.f['of']
             dom, bind = src.dom, T([KEY(kv), column(src, kv)])
+            if src.f.get('cells') == 'tuples':          # a dict whose values are tuples of cells (th_tables3: dict(zipper(names, zipper(*rows))))
+                bind = T([KEY(kv), SV('vtuple', Select(src.clen, kv), arr=Select(src.carr, kv))])
             if src.f.get('empty'):
                 return empty_colmap()
         elif it.kind == 'rmitems' and isinstance(g.target, ast.Tuple) and len(g.target.elts) == 2:
